@@ -22,7 +22,9 @@ Property theorems only (helpers: `Proofs/NNLinear.lean`, `NNGnat.lean`, `NNGnatQ
   `remove_preserves_inv` (pivot test and rebuild included), `rebuild_abs`, the refinement
   `gnat_size_list_abs` (every operation history, every draw sequence) and its corollary
   `gnat_history_queries_exact` (after any history every query equals brute force over the abstract
-  multiset).
+  multiset), `gnat_variants_agree` (the two GNAT variants give the same sizes, contents and distance lists);
+* `default_nn_exact_only_if_metric`: `SelfConfig::getDefaultNearestNeighbors` hands out a GNAT variant only
+  to spaces that claim to be metric, `NearestNeighborsSqrtApprox` (no metric law needed) otherwise.
 
 Hypotheses of the operation theorems, all satisfied by the driver's instances (`sampleCtx_ok`):
 `CtxOK` (`minDegree_, maxDegree_, degree_ >= 1` — with `minDegree_ = 0` the real `split` calls `kcenters`
@@ -381,9 +383,79 @@ theorem gnat_history_queries_exact (ctx : Ctx α D U) (hctx : CtxOK ctx) (hm : M
     rw [List.map_map] at this
     exact this
 
+/-- **The two GNAT variants agree.**  `NearestNeighborsGNAT` and `NearestNeighborsGNATNoThreadSafety` run the
+same tree code (`Model/NNGnatOps.lean`) and differ only in scratch-buffer placement (not modelled: no
+observable effect) and in the child order function (`childOrder true` = rotating `offset_`,
+`childOrder false` = the `Permutation` shuffle).  Corollary of `gnat_history_queries_exact`: for the same
+history — whatever child orders `ord₁ ord₂` are used inside `remove`, whatever orders `ordq₁ ordq₂` in the
+queries, and even for different draw sequences — `size()` agrees, `list()` agrees as a multiset, and
+`nearestK` / `nearestR` return the same distance lists.  (The trees themselves need not be equal when
+equal elements are stored: which copy `remove` marks may depend on the order; on the differential runs
+the real variants' dumps were identical at every step.) -/
+theorem gnat_variants_agree (ctx : Ctx α D U) (hctx : CtxOK ctx) (hm : MetricOK ctx.dist)
+    {ord₁ ord₂ ordq₁ ordq₂ : Nat → Nat → List Nat}
+    (h₁ : ∀ sz off, (ord₁ sz off).Perm (List.range sz)) (h₂ : ∀ sz off, (ord₂ sz off).Perm (List.range sz))
+    (hq₁ : ∀ sz off, (ordq₁ sz off).Perm (List.range sz)) (hq₂ : ∀ sz off, (ordq₂ sz off).Perm (List.range sz))
+    (g0 : Gnat α D) (hg0 : g0.Inv ctx) (h0 : g0.tree = none) (ops : List (Op α)) (us₁ us₂ : List U)
+    (q : α) (k : Nat) (eps rad : D) :
+    let g₁ := (gnatRun ctx ord₁ ops g0 us₁).1
+    let g₂ := (gnatRun ctx ord₂ ops g0 us₂).1
+    g₁.size = g₂.size ∧ (g₁.list.map (fun e => e.val)).Perm (g₂.list.map (fun e => e.val)) ∧
+    (g₁.nearestK ctx.dist eps ordq₁ q k).1.map Prod.fst = (g₂.nearestK ctx.dist eps ordq₂ q k).1.map Prod.fst ∧
+    (g₁.nearestR ctx.dist ordq₁ q rad).1.map Prod.fst = (g₂.nearestR ctx.dist ordq₂ q rad).1.map Prod.fst := by
+  intro g₁ g₂
+  obtain ⟨_, w₁, s₁, a₁⟩ := gnat_size_list_abs ctx hctx hm h₁ g0 hg0 h0 ops us₁
+  obtain ⟨_, w₂, s₂, a₂⟩ := gnat_size_list_abs ctx hctx hm h₂ g0 hg0 h0 ops us₂
+  obtain ⟨k₁, r₁, _, _⟩ := gnat_history_queries_exact ctx hctx hm h₁ hq₁ g0 hg0 h0 ops us₁ q k eps rad
+  obtain ⟨k₂, r₂, _, _⟩ := gnat_history_queries_exact ctx hctx hm h₂ hq₂ g0 hg0 h0 ops us₂ q k eps rad
+  obtain ⟨_, dk₁, _⟩ := nearestK_exact hm.metric hm.self g₁ w₁ q k eps hq₁
+  obtain ⟨_, dk₂, _⟩ := nearestK_exact hm.metric hm.self g₂ w₂ q k eps hq₂
+  obtain ⟨_, dr₁, _⟩ := nearestR_exact hm.metric g₁ w₁ q rad hq₁
+  obtain ⟨_, dr₂, _⟩ := nearestR_exact hm.metric g₂ w₂ q rad hq₂
+  have recorded : ∀ (ans : List (D × Elem α)), (∀ x ∈ ans, x.1 = ctx.dist q x.2.val) →
+      ans.map Prod.fst = (ans.map (fun x => x.2.val)).map (fun v => ctx.dist q v) := by
+    intro ans h
+    rw [List.map_map]
+    exact List.map_congr_left h
+  refine ⟨by rw [s₁, s₂], a₁.trans a₂.symm, ?_, ?_⟩
+  · rw [recorded _ dk₁, recorded _ dk₂]
+    exact isKNearest_dists_unique _ k _ _ _ _ k₁ k₂ (List.Perm.refl _)
+  · rw [recorded _ dr₁, recorded _ dr₂]
+    exact isRNearest_dists_unique _ rad _ _ _ _ r₁ r₂ (List.Perm.refl _)
+
 end Metric
 
 end GnatOps
+
+/-! ## which structure a planner gets -/
+
+/-- **`getDefaultNearestNeighbors` selects a GNAT variant only for spaces that claim to be metric.**
+The model of `tools::SelfConfig::getDefaultNearestNeighbors` (as coded: `isMetricSpace()` first, then
+`specs.multithreaded`; no build flag is consulted): a structure whose exactness rests on the metric laws
+(`needsMetric`: the two GNAT variants) is selected only if `space->isMetricSpace()`; then it is
+`NearestNeighborsGNAT` for multithreaded planners and `NearestNeighborsGNATNoThreadSafety` otherwise, and by
+`gnat_history_queries_exact` / `gnat_variants_agree` all answers are exact whenever the claim is TRUE (that
+is C06's business).  Every space that does not claim to be metric — Dubins, and since fix 02d37426b Möbius
+and Klein bottle, and (`compoundIsMetric` = `std::all_of`) every plain compound containing one — gets
+`NearestNeighborsSqrtApprox`, which needs no metric law: by `sqrt_member` / `sqrt_size_list_abs` its
+contents are the linear ones for every history, `nearestK` / `nearestR` are Linear's and exact by
+`linear_exact` for ANY distance function, and `nearest` returns a current member (approximately nearest
+by design). -/
+theorem default_nn_exact_only_if_metric (isMetricSpace multithreaded : Bool) :
+    ((defaultNN isMetricSpace multithreaded).needsMetric = true → isMetricSpace = true) ∧
+    (isMetricSpace = true →
+      defaultNN isMetricSpace multithreaded = if multithreaded then NNKind.gnat else NNKind.gnatNoThreadSafety) ∧
+    (isMetricSpace = false → defaultNN isMetricSpace multithreaded = NNKind.sqrtApprox) ∧
+    (∀ components : List Bool, compoundIsMetric components = true ↔ ∀ c ∈ components, c = true) := by
+  refine ⟨?_, ?_, ?_, ?_⟩
+  · cases isMetricSpace <;> cases multithreaded <;> simp [defaultNN, NNKind.needsMetric]
+  · intro h; subst h; cases multithreaded <;> rfl
+  · intro h; subst h; rfl
+  · intro cs; simp [compoundIsMetric]
+
+example : defaultNN (compoundIsMetric [true, false]) true = NNKind.sqrtApprox := by decide
+example : defaultNN (compoundIsMetric [true, true]) false = NNKind.gnatNoThreadSafety := by decide
+example : ∀ m t, defaultNN m t ≠ NNKind.linear := by decide
 
 /-! non-vacuity of the operation theorems: the driver's kind of instance (L1 metric on ℤ², the sample
 parameters) satisfies every hypothesis, and the theorems pin concrete histories down. -/
